@@ -107,3 +107,10 @@ CHECKS["C13"] = {
     "text": "quick: 763 programs x 3 compute placements (kernels per statement, kernels per maximal run, parallel+loop) x every consecutive range of top-level statements = 6.7k data regions x 6 inputs; thorough: 5,474 programs = 62.6k regions. Each accepted ACCDataTrans region is executed with separate device copies under exactly the copyin/copyout/copy clauses the FortranWriter prints; final host arrays must equal the host run.",
     "note": "Scalars are outside the claim. Regions in which a host statement and a compute construct share an array (one writing it) need update directives and are counted, not judged. Open findings: partially written arrays in copyout; arrays only touched by host statements of the region placed in copyout/copy.",
 }
+
+CHECKS["C09"] = {
+    "level": "model_checking",
+    "technique": "schedule exploration: for every loop the real OpenMP transformations accept (no force), the lowered tree is executed by E1 in OpenMP mode for EVERY set partition of the iteration set into at most T thread blocks (T=3 quick, 4 thorough), with per-thread copies for the private/firstprivate clauses PSyclone generates; data-race detection on shared locations plus comparison of the final shared store with the serial run",
+    "text": "Loops = the C08 corpus (1.7k quick / 3.2k thorough) x variants (OMPParallelLoopTrans, OMPLoopTrans(do)+OMPParallelTrans; thorough adds paralleldo, loop, teamsdistributeparalleldo) x collapse none/2; quick: 57k (loop, input, schedule) executions, thorough: 550k. Partitions with in-order blocks are exactly the outcomes static/dynamic/guided schedules can produce (up to thread renaming) for <=6 iterations; without a race the sequential composition of the thread blocks is representative of every interleaving.",
+    "note": "Clause semantics are modelled (private undefined at entry, firstprivate initialised at region entry, everything else shared); post-region values of private/firstprivate scalars are not compared; inputs with more than 6 collapsed iterations are skipped. libgomp is not used. Open findings: integer-division subscripts, collapse(2) ignoring inner-loop dependences, conditionally written scalars made firstprivate, write-only scalars left shared.",
+}
